@@ -24,8 +24,20 @@ class Body:
         return "<Body %s>" % self.path
 
 
+def fingerprint(b):
+    """(parent path, argument types, return type) of a function body; None for closures, constants and bodies without MIR"""
+    if "{closure" in b.path or b.def_kind not in ("AssocFn", "Fn") or not b.mir:
+        return None
+    n = b.mir.get("argc", 0)
+    tys = [str(l.get("ty")) for l in b.mir["locals"][:n + 1]]
+    return [b.path.rsplit("::", 1)[0] if "::" in b.path else "", tys[1:], tys[0]]
+
+
+REFERENCE = os.path.join(os.path.dirname(os.path.abspath(__file__)), "reference_names.json")
+
+
 class Facts:
-    def __init__(self, directory, crate):
+    def __init__(self, directory, crate, normalise=True):
         self.dir = directory
         self.crate = crate
         self.meta = json.load(open(os.path.join(directory, crate + ".meta.json")))
@@ -38,6 +50,76 @@ class Facts:
         self._fh = open(os.path.join(directory, crate + ".bodies.jsonl"), "rb")
         self._cache = {}
         self._all = None
+        self.renames = {}       # name in this tree -> name in the reference tree
+        if normalise and crate == "roto" and os.path.exists(REFERENCE):
+            self._find_renames()
+
+    # --- renamed / moved functions ------------------------------------------
+    def _find_renames(self):
+        """A private function that an edit renamed (or moved to another impl block / made a method) is the same function: the rules
+        name the functions they read, so the facts are normalised to the names of the reference tree first.  A function of this tree
+        that the reference tree does not have is matched with a reference function this tree no longer has when they agree on
+        (parent, argument types, return type) - or on (name, argument types without the receiver, return type) for a move - and the
+        match is unique in both directions.  Nothing is decided here; an ambiguous or wrong match leaves the rule to fail closed."""
+        ref = json.load(open(REFERENCE))
+        cur = {p for p in self.index if "{closure" not in p}
+        missing = [p for p in ref if p not in cur]
+        fresh = []
+        for p in cur:
+            if p in ref:
+                continue
+            b = self._load(self.index[p][0])
+            fp = fingerprint(b)
+            if fp is not None:
+                fresh.append((p, fp))
+        if not missing or not fresh:
+            return
+        last = lambda p: p.rsplit("::", 1)[-1]
+        noself = lambda tys: [t for t in tys[:1] if not ("Self" in t or t.lstrip("&").replace("mut ", "").strip() in ())] + list(tys[1:])
+
+        def strip_recv(parent, tys):
+            # argument types without a receiver of the parent's own type
+            if tys and parent and parent.split("::<")[0].split("<")[0] in tys[0].replace("&mut ", "").replace("&", ""):
+                return tys[1:]
+            return tys
+        pairs = []
+        for mp in missing:
+            mparent, margs, mret = ref[mp]
+            same_parent = [q for q, fp in fresh if fp[0] == mparent and fp[1] == margs and fp[2] == mret]
+            moved = [q for q, fp in fresh if last(q) == last(mp) and fp[2] == mret and strip_recv(fp[0], fp[1]) == strip_recv(mparent, margs)]
+            cands = same_parent or moved
+            if len(cands) == 1:
+                pairs.append((cands[0], mp))
+        taken = {}
+        for q, mp in pairs:
+            taken.setdefault(q, []).append(mp)
+        for q, mps in taken.items():
+            if len(mps) == 1:
+                self.renames[q] = mps[0]
+        if not self.renames:
+            return
+        # longest names first, so that a name that is a prefix of another is not replaced inside it
+        self._subst = sorted(((q.encode(), m.encode()) for q, m in self.renames.items()), key=lambda x: -len(x[0]))
+        new_index = {}
+        for p, es in self.index.items():
+            np = p
+            for q, m in self.renames.items():
+                if p == q or p.startswith(q + "::{"):
+                    np = m + p[len(q):]
+            new_index.setdefault(np, []).extend([np] + list(e[1:]) for e in es)
+        self.index = new_index
+        self._cache = {}
+
+    def _norm(self, raw):
+        if self.renames:
+            for q, m in self._subst:
+                if q in raw:
+                    raw = raw.replace(q + b'"', m + b'"').replace(q + b"::{", m + b"::{")
+        return raw
+
+    def _load(self, e):
+        self._fh.seek(e[1])
+        return Body(json.loads(self._norm(self._fh.read(e[2]))))
 
     # --- bodies -----------------------------------------------------------
     def paths(self):
@@ -51,8 +133,7 @@ class Facts:
         for e in self.index.get(path, []):
             key = (e[1], e[2])
             if key not in self._cache:
-                self._fh.seek(e[1])
-                self._cache[key] = Body(json.loads(self._fh.read(e[2])))
+                self._cache[key] = self._load(e)
             out.append(self._cache[key])
         return out
 
@@ -70,7 +151,7 @@ class Facts:
             self._fh.seek(0)
             for line in self._fh:
                 if line.strip():
-                    self._all.append(Body(json.loads(line)))
+                    self._all.append(Body(json.loads(self._norm(line))))
         return self._all
 
     def bodies_in(self, file_suffixes):
@@ -81,8 +162,7 @@ class Facts:
                 if any(e[3].endswith(s) for s in file_suffixes):
                     key = (e[1], e[2])
                     if key not in self._cache:
-                        self._fh.seek(e[1])
-                        self._cache[key] = Body(json.loads(self._fh.read(e[2])))
+                        self._cache[key] = self._load(e)
                     out.append(self._cache[key])
         return out
 
